@@ -90,16 +90,13 @@ theorem valueOf_decomp (w : World K) (D : K) (b : Broker K) (k : Key) (h : Inv w
     · simp only [hc, ne_of_gt hmr, if_false]
       congr 1; ring
 
-/-- **NLV decomposition** at a valuation: reported NLV = cash + all posted margins + liquidation
-    value of fully-paid positions. -/
-theorem nlv_decomposition (pw : K → K → K) (w : World K) (D : K) (hw : ∀ k, WFSpec (w.spec k))
-    (ops : List (Op K)) (hs : (runOps pw w (Broker.init D) ops).snapped = false)
-    (hq : ∀ k ∈ (runOps pw w (Broker.init D) ops).held, Quoted (runOps pw w (Broker.init D) ops) k) :
-    let b := markAll w (runOps pw w (Broker.init D) ops)
+/-- NLV decomposition for any state satisfying the ledger invariant -/
+theorem nlv_decomposition_inv (w : World K) (D : K) (hw : ∀ k, WFSpec (w.spec k)) (b0 : Broker K)
+    (h0 : Inv w D b0) (hq : ∀ k ∈ b0.held, Quoted b0 k) :
+    let b := markAll w b0
     nlvMarked w b = .ok (b.cash + sumL (b.held.map b.margin) +
       sumL (b.held.map fun k => if (w.spec k).mr = 0 then (w.spec k).mult * b.pos k * liqv b k else 0)) := by
   intro b
-  have h0 := runOps_inv pw w D hw ops _ (inv_init w D) hs
   have h : Inv w D b := markAll_inv w D _ h0
   have hq' : ∀ k ∈ b.held, Quoted b k := by
     intro k hk; rw [markAll_held] at hk; exact quoted_markAll w _ k (hq k hk)
@@ -116,6 +113,16 @@ theorem nlv_decomposition (pw : K → K → K) (w : World K) (D : K) (hw : ∀ k
     funext k; rfl
   rw [this, sumL_map_add]
   congr 1; ring
+
+/-- **NLV decomposition** at a valuation: reported NLV = cash + all posted margins + liquidation
+    value of fully-paid positions. -/
+theorem nlv_decomposition (pw : K → K → K) (w : World K) (D : K) (hw : ∀ k, WFSpec (w.spec k))
+    (ops : List (Op K)) (hs : (runOps pw w (Broker.init D) ops).snapped = false)
+    (hq : ∀ k ∈ (runOps pw w (Broker.init D) ops).held, Quoted (runOps pw w (Broker.init D) ops) k) :
+    let b := markAll w (runOps pw w (Broker.init D) ops)
+    nlvMarked w b = .ok (b.cash + sumL (b.held.map b.margin) +
+      sumL (b.held.map fun k => if (w.spec k).mr = 0 then (w.spec k).mult * b.pos k * liqv b k else 0)) :=
+  nlv_decomposition_inv w D hw _ (runOps_inv pw w D hw ops _ (inv_init w D) hs) hq
 
 /-- one term of `holdings_values('notional')` -/
 theorem notional_def (w : World K) (b : Broker K) (k : Key) (p : K) (h0 : b.pos k ≠ 0)
